@@ -108,6 +108,8 @@ def parseWord (w : String) : Option Uuid.Word :=
   mcql <kind> <content>                → ok <16 bytes> | err               (gocql.Marshal of a uuid column value)
   ucqln <col> <kind> <prev|nilptr> <data|null|-> → ok|err nilptr|<content of the NEW pointee>  (gocql.Unmarshal into a **T)
   ucqlnt <col> <prev|nilptr> <data|null> → ok|err nilptr|<sec.nsec>          (gocql.Unmarshal into a **time.Time)
+  genord <sa> <na> <sb> <nb>           → lt|gt|same-tick bounds=ok: UUIDFromTime(a) vs UUIDFromTime(b) under Cassandra's order (random counter and
+                                         nodes, chosen by the harness), and each within Min/MaxTimeUUID of its instant (C19_generated_cass_order)
   randn <hex, any length>              → ok <uuid> v=4 var=2 must=ok | err <16 bytes, partly filled> must=panic   (RandomUUID / MustRandomUUID
                                          when rand.Reader can deliver only these bytes)
   mcqlx <unset|nilval|int|…>           → ok null | err                      (gocql.Marshal of the remaining value kinds)
@@ -185,6 +187,12 @@ def step (_ : Unit) (ws : List String) : Unit × String :=
         let io := fun (b : Bool) => if b then "in" else "out"
         s!"incl={io (decide (ta ≤ ts) && decide (ts ≤ tb))} excl={io (decide (ta < ts) && decide (ts < tb))}"
       | _, _, _, _, _ => "bad-op"
+  | ["genord", sa, na, sb, nb] => match intArg sa, natArg na, intArg sb, natArg nb with   -- C19_generated_cass_order
+      | some sa, some na, some sb, some nb =>
+        let ta := Uuid.tick (sa, na)
+        let tb := Uuid.tick (sb, nb)
+        (if ta < tb then "lt" else if tb < ta then "gt" else "same-tick") ++ " bounds=ok"
+      | _, _, _, _ => "bad-op"
   | ["randn", h] => match parseHex h with                               -- C19_random_total
       | some bs =>
         let r := Uuid.randomUUID bs
